@@ -598,8 +598,55 @@ func (f *frame) step(ins ssa.Instruction, b *ssa.BasicBlock, in map[*ssa.BasicBl
 		return false, f.mapUpdate(x)
 	case *ssa.SliceToArrayPointer:
 		return false, unsupported("slice to array pointer conversion")
-	case *ssa.Range, *ssa.Next:
-		return false, unsupported("range over map or string")
+	case *ssa.Range:
+		if _, isMap := x.X.Type().Underlying().(*types.Map); !isMap {
+			return false, unsupported("range over a string")
+		}
+		// range over a map: the iterator is just the map; every Next yields an ARBITRARY entry of it (any
+		// order, any number of iterations) - an over-approximation that is sound for everything proved about
+		// the loop body (no panic, invariants), and says nothing about which entries were visited
+		mv, err := f.val(x.X)
+		if err != nil {
+			return false, err
+		}
+		if mv.T == nil {
+			return false, unsupported("range over a non-term map")
+		}
+		f.vals[x] = &Val{T: mv.T, Typ: x.X.Type()}
+		if f.c != nil {
+			if f.c.assumed == nil {
+				f.c.assumed = map[string]bool{}
+			}
+			f.c.assumed["range over a map is modelled as iteration over arbitrary entries in arbitrary order (nothing is known about which entries were visited)"] = true
+		}
+	case *ssa.Next:
+		if x.IsString {
+			return false, unsupported("range over a string")
+		}
+		rg, ok := x.Iter.(*ssa.Range)
+		if !ok {
+			return false, unsupported("map iterator of unknown origin")
+		}
+		mt := rg.X.Type()
+		_, vk, ks, vs, err := f.mapKeys(mt)
+		if err != nil {
+			return false, err
+		}
+		mv, err := f.val(x.Iter)
+		if err != nil {
+			return false, err
+		}
+		okT := f.e.fresh(f.prefix+"rangeok", SBool)
+		kT := f.e.fresh(f.prefix+"rangekey", ks)
+		has, err := f.mapHas(f.st, mt, mv.T, kT)
+		if err != nil {
+			return false, err
+		}
+		f.assume(Implies(okT, has))
+		f.assume(f.e.rangeFact(kT, mt.Underlying().(*types.Map).Key()))
+		varr := f.get(f.st, vk, f.e.Sorts.ArrOf(SRef, f.e.Sorts.ArrOf(ks, vs)))
+		vT := f.define(f.name(x)+"!val", Select(Select(varr, mv.T), kT))
+		f.vals[x] = &Val{Tuple: []*Val{{T: okT, Typ: types.Typ[types.Bool]}, {T: kT, Typ: mt.Underlying().(*types.Map).Key()}, {T: vT, Typ: mt.Underlying().(*types.Map).Elem()}}}
 	case *ssa.Go, *ssa.Send, *ssa.Select, *ssa.MakeChan:
 		return false, unsupported("concurrency construct %T", ins)
 	default:
